@@ -81,6 +81,10 @@ CONFUSABLE_FAMILIES = [
     ["-1", "-2"],
     ["-1.0", "-2.0"],
     ["5", "2305843009213693956"],
+    # a negative-zero part NEXT TO a non-zero / NaN part (CPython's constant key keeps the zero's sign)
+    ["-1j", "(0-1j)"],
+    ["-(-1+0j)", "(1+0j)"],
+    ["-((1e999-1e999)+0j)", "((1e999-1e999)+0j)"],
 ]
 # spelled differently but the SAME constant (all NaNs are identified; equal ints)
 SAME_FAMILIES = [
